@@ -53,6 +53,71 @@ fn main() {
         }
         return;
     }
+    if args.len() == 3 && args[1] == "--program" {
+        // public path: source text -> AsmParser::parse -> Translator::compile -> Machine::load
+        let text = std::fs::read_to_string(&args[2]).expect("program file");
+        panic::set_hook(Box::new(|_| {}));
+        let r = panic::catch_unwind(|| {
+            use emulator_2a_lib::{compiler::Translator, machine::{Machine, MachineConfig}, parser::AsmParser};
+            match AsmParser::parse(&text) {
+                Err(e) => format!("REJECTED by the parser: {:?}", e).replace('\n', " "),
+                Ok(asm) => {
+                    let bc = Translator::compile(&asm);
+                    let n = bc.bytes().count();
+                    let mut m = Machine::new(MachineConfig::default());
+                    m.load(bc);
+                    format!("OK: accepted, compiled to {} bytes and loaded", n)
+                }
+            }
+        });
+        match r {
+            Ok(s) => println!("{}", s),
+            Err(e) => {
+                let msg = e.downcast_ref::<&str>().map(|s| s.to_string()).or_else(|| e.downcast_ref::<String>().cloned()).unwrap_or_default();
+                println!("PANIC: accepted by the parser, then panicked: {}", msg.replace('\n', " "));
+            }
+        }
+        return;
+    }
+    if args.len() == 4 && args[1] == "--asm-step" {
+        // does one assembly step return when the byte at PC is args[2]? (run with an external timeout)
+        use emulator_2a_lib::machine::{Machine, MachineConfig, StepMode};
+        let byte: u8 = args[2].parse().expect("byte");
+        let max: u64 = args[3].parse().expect("max edges");
+        let mut m = Machine::new(MachineConfig::default());
+        m.raw_mut().bus_mut().memory_mut()[0] = byte;
+        m.raw_mut().set_programsize(emulator_2a_lib::parser::Programsize::Size(255));
+        // reference: clock stepping reaches a boundary within `max` edges?
+        let mut r = m.clone();
+        let mut left = !r.is_instruction_done();
+        let mut n = 0u64;
+        while n < max {
+            if r.state() != emulator_2a_lib::machine::State::Running { break; }
+            if left && r.is_instruction_done() { break; }
+            r.raw_mut().trigger_clock_edge();
+            n += 1;
+            if !r.is_instruction_done() { left = true; }
+        }
+        // second instruction (the byte itself is executed by the second step after reset)
+        let mut k = 0u64;
+        left = !r.is_instruction_done();
+        while k < max {
+            if r.state() != emulator_2a_lib::machine::State::Running { break; }
+            if left && r.is_instruction_done() { break; }
+            r.raw_mut().trigger_clock_edge();
+            k += 1;
+            if !r.is_instruction_done() { left = true; }
+        }
+        if k >= max {
+            println!("NO-BOUNDARY: opcode {:#04x}: no instruction boundary within {} clock edges (assembly step would not return)", byte, max);
+        } else {
+            m.set_step_mode(StepMode::Assembly);
+            m.trigger_key_clock();
+            m.trigger_key_clock();
+            println!("RETURNS: opcode {:#04x}: boundary after {} edges; assembly step returned, equal to clock stepping: {}", byte, k, m.raw_mut().clone() == r.raw_mut().clone());
+        }
+        return;
+    }
     if args.len() != 3 {
         eprintln!("usage: replay <harness> <values.json> | --list");
         std::process::exit(3);
